@@ -12,6 +12,7 @@ finite-mode family non-commuting H_S (+ Lindblad term, + piecewise-constant H(t)
                    simulation of system (x) modes with the same symmetric splitting.
 """
 import itertools
+from fractions import Fraction
 
 import numpy as np
 import scipy.linalg as sl
@@ -82,7 +83,7 @@ def memory_settings(n):
     for k in (1, 2):
         for add in (None, 0.0, 1.5, "inf"):
             out.append((f"K{k}<n", k, None, add))
-    out += [("tcut->2", None, 2.2, None), ("tcut->2", None, 2.2, 1.5)]
+    out += [("tcut=3dt", None, 3, None), ("tcut=3dt", None, 3, 1.5)]      # tcut written as the decimal 3*dt (0.3, 1.11)
     out += [("K=n", n, None, None), ("K=n", n, None, 1.5)]
     out += [("K>n", n + 3, None, None), ("K>n", n + 3, None, "inf")]
     return out
@@ -120,7 +121,8 @@ CUSTOM = [("custom-power", 1.0, "gaussian", 1.0), ("custom-structured", 1.0, "ex
 def shards(tier, seed=0):
     """One shard = (sd, dt, model, rotated, list of memory settings, list of unique); both methods run in the shard."""
     mem = memory_settings(N_STEPS)
-    mem_small = [m for m in mem if m[0] in ("none", "K2<n", "K=n")][::2] + [("K2<n", 2, None, 1.5)]
+    mem_small = [("none", None, None, None), ("K2<n", 2, None, None), ("K2<n", 2, None, 1.5), ("K2<n", 2, None, "inf"),
+                 ("tcut=3dt", None, 3, 1.5), ("K=n", N_STEPS, None, None)]
     mem_two = [("K2<n", 2, None, 1.5), ("none", None, None, None)]
     plan = []      # (kind, zeta, cut, temp, dt, model, rot, mems, uniques, epsrel)
     if tier == "thorough":
@@ -160,12 +162,17 @@ def _add_value(add, dt):
 
 
 def effective_k(dkmax, tcut_units):
-    """documented meaning of tcut: memory of round(tcut/dt) steps"""
+    """documented meaning of tcut: a memory time of K*dt is a memory of K steps (only exact decimal multiples are used)"""
     if dkmax is not None:
         return dkmax
     if tcut_units is not None:
-        return int(round(tcut_units))
+        return int(tcut_units)
     return None
+
+
+def tcut_value(tcut_units, dt):
+    """K*dt in exact decimal arithmetic, as a user would type it (0.3 for 3 x 0.1, 1.11 for 3 x 0.37)"""
+    return float(Fraction(str(dt)) * int(tcut_units))
 
 
 def case_cls(c, sig):
@@ -210,7 +217,7 @@ def run_commuting(c, bath=None):
         res["exc"] = ("bath-construction", f"{type(ex).__name__}", str(ex)[:120])
         return res
     try:
-        prm = C.make_params(dt, epsrel, dkmax=dkmax, tcut=None if tcut_u is None else tcut_u * dt, add=tau)
+        prm = C.make_params(dt, epsrel, dkmax=dkmax, tcut=None if tcut_u is None else tcut_value(tcut_u, dt), add=tau)
         sysm = oq.System(h)
         if c["method"] == "tempo":
             times, states = C.run_tempo(sysm, bath, prm, rho0, 0.0, n, c["unique"])
@@ -464,7 +471,7 @@ def run(tier, seed):
         "rule": "commuting family: shards = (spectral density, dt, (H_S,O) model, basis) each running the listed memory settings "
                 "x unique x {TEMPO, PT-TEMPO+compute_dynamics}; thorough = full product cut-off{exp,gauss,hard} x zeta{1,.5,3} x "
                 "T{0,0.06,1,8} (+3 CustomSD members) x dt{0.1,0.37} x 4 models x {plain, rotated basis} x 16 memory settings "
-                "(dkmax None/1/2/n/n+3, tcut->2; add_correlation_time None/0/1.5dt/inf wherever it can act, one member elsewhere) "
+                "(dkmax None/1/2/n/n+3, tcut = 3dt as a decimal; add_correlation_time None/0/1.5dt/inf wherever it can act, one member elsewhere) "
                 "x unique{F,T} x 2 methods at epsrel 1e-9; quick = three sub-products (A: all cut-offs x T x 16 memory x unique x method, rotated "
                 "d=3; B: all cut-offs x zeta x T x 8 models at dt=0.37, 2 memory settings; C: CustomSD x 6 models); both tiers: sub-product A "
                 "again at epsrel 1e-6. The coupling strength of every spectral density is normalised (decoherence exponent 1.2 at the "
@@ -490,7 +497,7 @@ def run(tier, seed):
     }
     rep.assumptions = [
         "closed form: rho_ab(t_n) = [U rho0 U^dag]_ab exp(-(o_a-o_b)[(o_a-o_b) Re E_n + i (o_a+o_b) Im E_n]) with E_n the sum of the "
-        "triangle / square / rectangle cells the documentation assigns to dkmax, tcut (= round(tcut/dt) steps) and "
+        "triangle / square / rectangle cells the documentation assigns to dkmax, tcut (K*dt typed as a decimal = K steps) and "
         "add_correlation_time; cells from an own frequency-domain quadrature (relative 1e-11), not from differences of eta(t)",
         "finite-mode oracle: density-matrix simulation of system (x) Fock-truncated modes, converged in the cut to 1e-11, "
         "symmetric splitting half system step / joint unitary / half system step",
